@@ -154,11 +154,13 @@ pub struct WlOpts {
     pub max_progs: usize,
     pub gen: GenOpts,
     pub cfn_bias: u64,
+    /// some test cases carry several misspelt expectation statuses (the command rejects them)
+    pub bad_expectations: bool,
 }
 
 impl Default for WlOpts {
     fn default() -> Self {
-        WlOpts { max_docs: 3, max_progs: 3, gen: GenOpts::default(), cfn_bias: 3 }
+        WlOpts { max_docs: 3, max_progs: 3, gen: GenOpts::default(), cfn_bias: 3, bad_expectations: false }
     }
 }
 
@@ -190,6 +192,15 @@ pub fn gen_workload(r: &mut Rng, o: &WlOpts) -> Workload {
                 1 | 2 => expect.push((n.clone(), "PASS".to_string())),
                 3 => expect.push((n.clone(), "FAIL".to_string())),
                 _ => expect.push((n.clone(), "SKIP".to_string())),
+            }
+        }
+        if o.bad_expectations && expect.len() >= 2 && r.chance(1, 6) {
+            // two or more statuses that are not PASS / FAIL / SKIP: which one is quoted in the
+            // diagnostic must not depend on anything but the file
+            let bad = ["PASSED", "pass", "FAILS", "Skip", "OK"];
+            let k = 2 + r.usize(expect.len() - 1);
+            for (i, e) in expect.iter_mut().take(k).enumerate() {
+                e.1 = bad[i % bad.len()].to_string();
             }
         }
         tests.push(TestCase { name: if r.chance(3, 4) { Some(format!("case {}", c + 1)) } else { None }, input, expect });
